@@ -307,8 +307,8 @@ def docs_do_not_alter_type(rep):
 
 
 # documented item, its doc-less twin, and for every documented NAMED field the key its comment block must sit in front of
-DOC_TWINS = [('DD1', 'DN1', [('da', '"a-b"'), ('db', 'b'), ('dc', 'c'), ('dd', 'd'), ('df', 'type')]),
-             ('DD2', 'DN2', [('fa', 'x'), ('fb', '"y-y"')]), ('DD3', 'DN3', [('fa', 'x')]), ('DD4', 'DN4', [])]
+DOC_TWINS = [('DD1', 'DN1', [('da {0} {{b}}', '"a-b"'), ('db', 'b'), ('dc', 'c'), ('dd', 'd'), ('df', 'type')]),
+             ('DD2', 'DN2', [('fa {1}', 'x'), ('fb', '"y-y"')]), ('DD3', 'DN3', [('fa', 'x')]), ('DD4', 'DN4', [])]
 
 
 def doc_twins(rep):
@@ -350,7 +350,7 @@ def doc_twins(rep):
                     tyres.show_rope(o_[(dn, 'decl')]).replace(dn, 'X'):
                 why = 'decl() of the documented item differs from its twin beyond the comment blocks'
             for mark, key in fields:
-                if why is None and not re.search(r'\n/\*\*\n \*\s?' + mark + r'\n \*/\n' + re.escape(key) + r'\??: ', with_docs):
+                if why is None and not re.search(r'\n/\*\*\n \*\s?' + re.escape(mark) + r'\n \*/\n' + re.escape(key) + r'\??: ', with_docs):
                     why = f'the documentation `{mark}` is not one comment block immediately in front of the property {key}'
             if why:
                 rep.violations.append({'what': f'{TG["corpus"][dd]["src"][:90]}..: {why} [with docs {with_docs!r}; without {without!r}]',
